@@ -211,7 +211,9 @@ def classify(case, clauses):
             ea, eb = env_of(a), env_of(b)
             if bad and ea and eb and all(geos_env_distance(ea, eb) > dbl(t) >= gap_env_distance(ea, eb) for t in bad):
                 cls = 'envelope-distance-rounding'
-            elif bad and all(t == r1['d'][0] for t in bad):
+            elif bad and key in ('wa', 'wb') and all(t == r1['d'][0] for t in bad) and \
+                    all(any(k == 'w' and v[0] == t and v[1] == '1' for k, v in res) for t in bad):
+                # only the prepared (IndexedFacetDistance) variant, only exactly at the reported distance, and the unprepared test agrees with the distance
                 cls = 'within-exactly-at-distance-rounding'
         out[c] = cls
     return out
@@ -402,6 +404,10 @@ def run(ctx):
             others += 1
             if others > 6:
                 continue
+        if cls != 'other' and any(kf.get("signature") == {"class": cls} for kf in ctx.known):
+            # a recorded finding: no need to shrink, Ctx.violation turns it into a KNOWN-FINDING line
+            ctx.violation(WHAT[cls], {"kind": "failing-input", "stream": stream, "case": c}, signature={"class": cls})
+            continue
         c2 = shrink(exe, ctx.work, c, cls) if cls != 'other' else shrink_other(exe, ctx.work, c, key.split(':', 1)[1])
         c2full, ans2 = run_pair(exe, pair_of(c2), ctx.work)
         if not c2full:
